@@ -37,7 +37,11 @@ class ASTFinder:
 		if root.name == full_path:
 			return root
 
-		return self.__pluck(root, EntryPath(full_path).shift(1))
+		path = EntryPath(full_path)
+		if not path.valid or path.first != (root.name, -1):
+			raise Errors.NodeNotFound(root, full_path)
+
+		return self.__pluck(root, path.shift(1))
 
 	def __pluck(self, entry: Entry, path: EntryPath) -> Entry:
 		"""配下のエントリーから指定のパスに一致するエントリーを抜き出す
@@ -56,15 +60,14 @@ class ASTFinder:
 			tag, index = path.first
 			remain = path.shift(1)
 			# @see EntryPath.identify
+			# XXX インデックスは同名の要素が複数ある場合にのみ付与される。それ以外の表記は実在しないパス
+			children = entry.children
+			in_entries = [in_entry for in_entry in children if tag == in_entry.name]
 			if index != -1:
-				children = entry.children
-				if index >= 0 and index < len(children) and children[index].name == tag:
+				if len(in_entries) > 1 and index >= 0 and index < len(children) and children[index].name == tag:
 					return self.__pluck(children[index], remain)
-			else:
-				children = entry.children
-				in_entries = [in_entry for in_entry in children if tag == in_entry.name]
-				if len(in_entries):
-					return self.__pluck(in_entries.pop(), remain)
+			elif len(in_entries) == 1:
+				return self.__pluck(in_entries[0], remain)
 		elif not path.valid:
 			return entry
 
